@@ -240,6 +240,13 @@ func c13Machine(c *Ctx, kind string, maxL, maxBatch int, classes []string, cond 
 			return out
 		},
 		MaxStates: 200000,
+		Observe: func(in *nestInst) {
+			if in.isC {
+				observeAll(in.c)
+			} else {
+				observeAll(in.s)
+			}
+		},
 		Key: func(in *nestInst) string {
 			if in.isC {
 				return canonTokens(stackage.VerifDump(in.c).Key(false))
@@ -312,7 +319,7 @@ func init() {
 		var hc histCase
 		json.Unmarshal(raw, &hc)
 		if m := find(c, hc.Machine); m != nil {
-			replayHistory(c, m, hc.History)
+			replayHistory(c, m, hc.History, hc.Observed)
 		}
 	}})
 }
